@@ -232,7 +232,7 @@ func (e *Env) heapSet(s *State, name, sort, term string) {
 	e.heapGet(s, name, sort) // make sure the initial constant exists (frames compare against it)
 	c := e.ctx.freshConst(name, sort)
 	s.assume(eq(c, term))
-	if strings.HasPrefix(name, "G!buf") {
+	if strings.HasPrefix(name, "G!buf") || name == "G!fdata" || name == "G!fsize" || name == "G!fpos" {
 		if e.ctx.defs == nil {
 			e.ctx.defs = map[string]string{}
 		}
